@@ -1,11 +1,12 @@
 import PynetVerif.Model.SExp
 import PynetVerif.Driver.Status
 import PynetVerif.Driver.Fsm
+import PynetVerif.Driver.Framing
 open PynetVerif
 
 /-- Each model contributes `String → List SExp → Option SExp` (none = not my op). -/
 def handlers : List (String → List SExp → Option SExp) :=
-  [Driver.statusOps, Driver.fsmOps]
+  [Driver.statusOps, Driver.fsmOps, Driver.framingOps]
 
 def handle (e : SExp) : SExp :=
   match e with
